@@ -13,3 +13,4 @@ INVARIANT InvTune
 INVARIANT InvKeep
 INVARIANT InvGrid
 INVARIANT InvTime
+INVARIANT InvTimeExactShift
